@@ -1,3 +1,4 @@
+import os
 from typing import TextIO
 
 from trashcli.empty.errors import format_error_msg
@@ -17,7 +18,22 @@ class Console:
         self.err.write(format_error_msg(self.program_name, msg))
 
     def print_dry_run(self, path):
-        self.out.write("would remove %s\n" % path)
+        self._write("would remove %s\n" % path)
 
     def print_removing(self, path):
-        self.out.write("removing %s\n" % path)
+        self._write("removing %s\n" % path)
+
+    def _write(self, text):
+        try:
+            self.out.write(text)
+        except UnicodeEncodeError:
+            # a file name that is not valid in the encoding of the stream:
+            # print its bytes as they are on disk instead of crashing
+            buffer = getattr(self.out, 'buffer', None)
+            if buffer is not None and hasattr(os, 'fsencode'):
+                self.out.flush()
+                buffer.write(os.fsencode(text))
+                buffer.flush()
+            else:
+                self.out.write(
+                    text.encode('utf-8', 'backslashreplace').decode('utf-8'))
